@@ -38,6 +38,12 @@ CLAIMS["C20"] = dict(
   technique="must-pass-through + same-value provenance + type check of the advisory map key",
   ref="DESIGN.md §3 C20")
 
+CLAIMS["C07"] = dict(
+  text="Panic-freedom discipline and comparator shape over all of package semantic: every index/slice expression is proved in bounds by a difference-constraint prover (facts from dominating branches, strings/regexp/builtin API contracts, loop counters, call-site facts of unexported helpers) or is an audited site with a stated data invariant (with machine-checked witnesses where the invariant rests on a particular guard); nil-on-failure results are never used with their ok/err discarded; Parse and each version type's CompareStr use the same parse function and forward its error; comparators compare the same key of both operands and return negated constants in mirrored branches. Level 'other': necessary conditions for 'never panics' and antisymmetry; transitivity and agreement with published orderings are value-level and not decided.",
+  note="Trusted: go/ssa, the API contract table (strings.Split>=1, Index bounds, regexp sub-match counts from the constant patterns via regexp/syntax), audited sites (14 index/slice + 1 SetString) read by hand; loads of the same field path are assumed stable between a dominating test and its use.",
+  technique="difference-constraint bounds prover on SSA + audited table, parse/compare agreement table, operand-mirror and mirrored-branch rules",
+  ref="DESIGN.md §3 C07")
+
 NA = {}
 
 
